@@ -47,6 +47,7 @@ pub fn gen_line_program(
     line_str: &mut Pool,
     strs: &mut Pool,
     force: Option<&'static str>,
+    plain: bool,
     st: &mut LineStats,
 ) {
     let v = enc.version;
@@ -204,8 +205,8 @@ pub fn gen_line_program(
         let mut addr: u64;
         let mut op_index: u64 = 0;
         let mut line: i64 = 1;
-        let tomb = r.chance(1, 12) && force.is_none();
-        if s == 0 && r.chance(1, 10) && force.is_none() {
+        let tomb = r.chance(1, 12) && force.is_none() && !plain;
+        if s == 0 && r.chance(1, 10) && force.is_none() && !plain {
             addr = 0; // no set_address at all
         } else if tomb {
             addr = mask;
@@ -456,7 +457,7 @@ fn line_case(ctx: &mut Ctx, stream: &str, i: u64, enc: Enc, force: Option<&'stat
     let mut line_str = Pool::default();
     let mut strs = Pool::default();
     let mut st = LineStats { ops: vec![], rows: 0 };
-    gen_line_program(&mut r, enc, &mut a, &mut line_str, &mut strs, force, &mut st);
+    gen_line_program(&mut r, enc, &mut a, &mut line_str, &mut strs, force, false, &mut st);
     let mut secs = Secs::default();
     secs.set(SectionId::DebugLine, a.buf);
     if !line_str.buf.is_empty() {
@@ -894,7 +895,7 @@ fn gen_info(r: &mut Rng, enc: Enc, focus: Option<u64>, obs: &mut Vec<&'static st
             std::mem::swap(&mut dummy, &mut sh.line_str);
             let mut dummy2 = Pool::default();
             std::mem::swap(&mut dummy2, &mut sh.strs);
-            gen_line_program(r, enc, &mut sh.line, &mut dummy, &mut dummy2, None, &mut lst);
+            gen_line_program(r, enc, &mut sh.line, &mut dummy, &mut dummy2, None, true, &mut lst);
             sh.line_str = dummy;
             sh.strs = dummy2;
         }
